@@ -117,3 +117,13 @@ func init() {
 		Trusted: []string{"T1 go toolchain, solvers", "T2 govc", "A3 sequential semantics"},
 	})
 }
+
+func init() {
+	register(&PropDef{
+		ID: "C12", Patterns: []string{"./interp"},
+		Extra:   func(r *Run) { r.compilePhaseEffects() },
+		Covered: []string{"eval reaches Execute only after compileSrc returned no error", "compile-phase functions reach no execution function in the static call graph (importSrc reported separately)", "exec closures are applied only at run time", "assignableTo: identical types accepted, distinct defined types rejected"},
+		Uncov:   []string{"the other type rules of typecheck.go and the operator admissibility tables", "convertibleTo / implements against the Go spec", "name resolution errors in cfg.go/gta.go", "calls through function values and interfaces in the call graph"},
+		Trusted: []string{"T1 go toolchain, solvers", "T2 govc", "itype.equals/underlying/id are pure functions of their receiver"},
+	})
+}
